@@ -313,6 +313,9 @@ def run(tier, seed, replay):
     except (OSError, subprocess.TimeoutExpired) as ex:
         log("C20: strace unavailable: %s" % ex)
     shutil.rmtree(base, ignore_errors=True)
+    okt, whatt = common.tie_phase(rep, "C20")
+    if not okt:
+        disagreements.append(({"regenerated_tie": True}, whatt))
     tie_broken = (not cr.ok) or model is None or disagreements
     if tie_broken and found == 0:
         what = []
